@@ -722,6 +722,47 @@ fn run_line(s: &mut Session, ctx: &mut Ctx, req: &str) -> Option<String> {
                 }
             }
         }
+        // RangeDownloader::download_archive_content (cdn/range.rs): URL
+        // "https://{host}/{path}[/{product_path}]/data/{name[0..2]}/{name[2..4]}/{name}"; the scheme is
+        // fixed, so the request goes to a closed port and the URL is read back from the
+        // connection error (`reqwest::Error::url`)
+        ["arange", host, path, pp, name, off, len, cuf] => {
+            let (host, path, pp, name) = (dec_tok(host)?, dec_tok(path)?, dec_opt(pp)?, dec_tok(name)?);
+            let (off, len): (u64, u64) = (off.parse().ok()?, len.parse().ok()?);
+            let cu = *cuf == "cu=1";
+            let ep = CdnEndpoint { host, path: path.clone(), product_path: pp.clone(), scheme: None, is_fallback: false, strict: false, max_hosts: None };
+            let sb = Sandbox::new();
+            let before = sb.snap();
+            let r = catch(AssertUnwindSafe(|| {
+                let d = cascette_protocol::cdn::RangeDownloader::with_config(1, 1 << 20, std::time::Duration::from_secs(5)).expect("range downloader");
+                ctx.rt.block_on(d.download_archive_content(&ep, &name, off, len)).map(|_| ())
+            }));
+            let after = sb.snap();
+            let d = diff(&sb, &before, &after);
+            let mut strs: Vec<&str> = vec![&path, &name];
+            if let Some(p) = &pp { strs.push(p); }
+            check_confined(s, "arange", &strs, &d, req);
+            match r {
+                Err(m) => {
+                    s.oracle_fail("panic-cdn-arange", &format!("RangeDownloader::download_archive_content panicked for archive name {name:?}: {m}"), &[req.to_string()]);
+                    s.tally("arange.panic");
+                    Some("panic".into())
+                }
+                Ok(Ok(())) => Some("ok".into()),
+                Ok(Err(e)) => {
+                    use cascette_protocol::cdn::RangeError;
+                    match &e {
+                        RangeError::InvalidArchiveName(_) => { s.tally("arange.invalid-name"); Some("err:invalid-name".into()) }
+                        RangeError::Network(ne) => {
+                            s.tally("arange.network");
+                            let url = ne.url().map(|u| u.as_str().to_string());
+                            Some(format!("err:network url={}", if cu { url.as_deref().map(enc).unwrap_or("-".into()) } else { "-".into() }))
+                        }
+                        _ => Some("err:other".into()),
+                    }
+                }
+            }
+        }
         ["inst", n, _data, _indices, _std] => {
             let name = dec_tok(n)?;
             if unsafe_args(&[&name], &[]) { return Some("unsafe-skip".into()); }
